@@ -1,7 +1,7 @@
 (* Single entry point val -> val for every modelled function; used by the extracted
    runner and by the generated in-Coq case files. *)
 From Coq Require Import ZArith List Bool.
-From Gabi Require Import Val ModArith Bytes Der Sha256 HashTool GoSem ParamsDef ZkProof Keys RangeProof NonRev Core CL Prover RangeSound.
+From Gabi Require Import Val ModArith Bytes Der Sha256 HashTool GoSem ParamsDef ZkProof Keys RangeProof NonRev Core CL Prover RangeSound Revocation.
 Import ListNotations.
 Open Scope Z_scope.
 
@@ -264,6 +264,59 @@ Definition d_table_split (v : val) : val := ret (
 
 Definition d_table_ld (v : val) : val := ret (do lim <- as_Z v; Some (VZ (table_ld lim))).
 
+Definition of_update_state (u : update) : val := VL [VL (map of_event (up_events u)); of_cache (up_product u)].
+
+Definition d_witness_update (v : val) : val := ret (
+  match v with
+  | VL [n; w; u] =>
+    do n <- as_Z n; do w <- as_witness w; do u <- as_update u;
+    let '(r, w', u') := witness_update n w u in
+    Some (VL [of_upd_result r; of_witness w'; of_cache (up_product u')])
+  | _ => None
+  end).
+
+Definition d_acc_remove (v : val) : val := ret (
+  match v with
+  | VL [n; ord; a; e; parent; t] =>
+    do n <- as_Z n; do ord <- as_Z ord; do a <- as_racc a; do e <- as_Z e; do parent <- as_event parent; do t <- as_Z t;
+    Some (of_outcome (fun ae => VL [of_racc (fst ae); of_event (snd ae)]) (acc_remove n ord a e parent t))
+  | _ => None
+  end).
+
+Definition d_new_witness (v : val) : val := ret (
+  match v with
+  | VL [n; ord; a; e] =>
+    do n <- as_Z n; do ord <- as_Z ord; do a <- as_racc a; do e <- as_Z e;
+    Some (of_outcome of_witness (new_witness n ord a e))
+  | _ => None
+  end).
+
+Definition d_event_hash (v : val) : val := ret (do e <- as_event v; Some (of_outcome of_LZ (event_hash e))).
+
+Definition d_hash_equals (v : val) : val := ret (
+  match v with
+  | VL [e; h] => do e <- as_event e; do h <- as_LZ h; Some (of_outcome (fun _ => VZ 0) (hash_equals e h))
+  | _ => None
+  end).
+
+Definition d_update_verify (v : val) : val := ret (
+  do u <- as_update v; Some (of_outcome of_racc (update_verify u))).
+
+Definition d_update_prepend (v : val) : val := ret (
+  match v with
+  | VL [u; ev; p] =>
+    do u <- as_update u; do ev <- as_events ev; do p <- as_oZ p;
+    let '(r, u') := update_prepend u ev p in
+    Some (VL [of_prep_result r; of_update_state u'])
+  | _ => None
+  end).
+
+Definition d_hash_equal (v : val) : val := ret (
+  match v with
+  | VL [a; b] => do a <- as_LZ a; do b <- as_LZ b; Some (of_bool (hash_equal a b))
+  | _ => None
+  end).
+
 Definition dispatch (fn : Z) (v : val) : val :=
   match fn with
   | 1501 => d_hash_commit v
@@ -284,6 +337,14 @@ Definition dispatch (fn : Z) (v : val) : val :=
   | 602 => d_sign_commitment v
   | 603 => d_prove_signature v
   | 604 => d_construct_credential v
+  | 901 => d_witness_update v
+  | 902 => d_acc_remove v
+  | 903 => d_new_witness v
+  | 1001 => d_event_hash v
+  | 1002 => d_hash_equals v
+  | 1003 => d_update_verify v
+  | 1004 => d_update_prepend v
+  | 1005 => d_hash_equal v
   | 1201 => d_proves_statement v
   | 1202 => d_proven_statement v
   | 1204 => d_range_verify v
